@@ -405,6 +405,8 @@ pub fn all() -> Vec<Scenario> {
                 vec![spawn(0, &[Kind::A]), sf(false)],
                 vec![mutate(0, Kind::A), sf(true), del(0, Chan::Mutations), cf(0), up(0, Chan::Acks), sf(false)],
                 vec![del(0, Chan::Updates), cf(0)],
+                vec![Step::Insert { slot: 0, kind: Kind::B, extra: 0 }],
+                round(),
                 vec![Step::Heal],
             ]),
         },
